@@ -361,16 +361,20 @@ def compile_simplified(text, options):
     log.addHandler(cap)
     log.setLevel(logging.WARNING)
     model = err = None
+    phase = "generate"
     try:
         model = generator.generate(_tree(text), "M", options)
         pre = (scalar_count(model.states) + scalar_count(model.alg_states), residual_len(model))
+        model._vf_pre = pre
         model.check_balanced()
+        phase = "simplify"
         model.simplify(options)
+        phase = "post"
         model.check_balanced()
         model._post_checks()
-        model._vf_pre = pre
     except Exception as e:  # noqa: BLE001 -- "reports failure with an exception"
         err = e
+        e._vf_phase = phase
     finally:
         log.removeHandler(cap)
         log.setLevel(old_level)
